@@ -57,7 +57,7 @@ fn spec(t: Tier) -> Spec {
         rule: format!("components: literal x, literal é, escapes \\a \\b \\f \\n \\r \\t \\v \\\\ \\0 \\101, %%, and each directive of p f h H P d s n i U G m y Y l with flag (none, -) x width (none, 1, 9): 103 components. Every format of <= {all} components on every configuration (9 starting-point spellings: r ./r r/ r// r/. . ../w/r absolute link-to-dir x -P -H -L) and of <= {deep} components on all 27 configurations in thorough (quick: on one, r/ under -H), rendered by the real find over a sandbox with every entry kind (regular, setuid, hard links, empty/non-empty/sticky/setgid directories, fifo, socket, links to each, dangling, outside, at depth 0..2, owners 0/1/54321/2^31) in -sorted order, several formats per run as consecutive -printf actions; the whole output must equal, byte for byte, the independent renderer's (values from lstat()/stat()/readlink() of the selected record, padding left/right to the width, never truncated, literals verbatim, nothing appended). A mismatching batch is bisected to the format and to the component. -fprintf FILE FORMAT is run for every single-component format. non-trivial = format containing a directive", all = t.pick(2, 2), deep = 3),
         bound: json!({"components": 103, "max_components_all_configs": 2, "max_components_deep_configs": 3, "configs": 27}),
         assumptions: vec![
-            "not judged (entries filtered out of the run by -path): %Y and %l on a link the follow mode resolves, %Y on a dangling link; %f/%h at depth 0 and %h at depth 1 when the starting point ends in '/' or '/.'; %h of an absolute starting point".into(),
+            "not judged (entries filtered out of the run by -path): %Y and %l on a link the follow mode resolves, %Y on a dangling link; %h when the part before the last component is empty ('/x') or itself ends in a slash ('r//x')".into(),
             "all sandbox modes have three or more octal digits (zero padding of %m is not specified); padded values are ASCII".into(),
             "-sorted pins the order (file-name byte order)".into(),
         ],
@@ -135,36 +135,38 @@ fn walk(root: &str, follow: char) -> Vec<Ent> {
     out
 }
 
-fn slash_ended(root: &str) -> bool {
-    root.ends_with('/') || root.ends_with("/.")
-}
-
 /// The value of directive `d` for entry `e`; None = not judged (see assumptions).
 fn value(d: char, e: &Ent, root: &str) -> Option<String> {
     Some(match d {
         'p' => e.path.clone(),
         'f' => {
             if e.depth == 0 {
-                if slash_ended(root) {
-                    return None;
+                // last component as given: trailing slashes do not make an (empty) component,
+                // a trailing "/." does (the component is ".")
+                let t = root.trim_end_matches('/');
+                if t.is_empty() {
+                    return None; // the root directory itself
                 }
-                root.rsplit('/').next().unwrap().to_string()
+                t.rsplit('/').next().unwrap().to_string()
             } else {
                 e.rel.last().unwrap().clone()
             }
         }
         'h' => {
-            if slash_ended(root) && e.depth <= 1 {
+            // the part before the last component (and before the slashes separating the two)
+            let t = if e.depth == 0 { root.trim_end_matches('/') } else { e.path.as_str() };
+            if t.is_empty() {
                 return None;
             }
-            match e.path.rfind('/') {
+            match t.rfind('/') {
                 None => ".".to_string(),
-                Some(0) => return None,
                 Some(i) => {
-                    if e.depth == 0 && root.starts_with('/') {
+                    let pre = &t[..i];
+                    // "/x" (GNU prints nothing, others "/") and "a//x" (a or a/) are not judged
+                    if pre.is_empty() || pre.ends_with('/') {
                         return None;
                     }
-                    e.path[..i].to_string()
+                    pre.to_string()
                 }
             }
         }
@@ -323,7 +325,7 @@ fn show(b: &[u8]) -> String {
 fn root_class(root: &str) -> &'static str {
     if root.starts_with('/') {
         "absolute"
-    } else if slash_ended(root) {
+    } else if root.ends_with('/') || root.ends_with("/.") {
         "ends in / or /."
     } else if root == "." {
         "."
